@@ -85,7 +85,13 @@ def gen_program(c, max_ops):
         return [name, [src() for _ in range(ar)]]
 
     for _ in range(n_ops):
-        k = c.int(0, 9)
+        k = c.int(0, 10)
+        if k == 10:
+            # an inner differentiation whose function closes over outer values; on one branch its result depends on the outer
+            # values only (so the inner derivative is exactly zero and must not pick up the outer dependence)
+            stmts.append(["closure", c.choice(["r", "f"]), src(), src(), src(), c.choice([0.5, 0.9, 1.3])])
+            nvals += 1
+            continue
         if k <= 6:
             stmts.append(["op"] + opcall())
         elif k == 7:
@@ -134,6 +140,11 @@ def interpret(prog, inputs, be):
             trace.append(("if", st[1], bool(taken)))
             name, srcs = st[3] if taken else st[4]
             vals.append(call(name, srcs))
+        elif kind == "closure":
+            _, mode, a_s, p_s, b_s, thr = st
+            r, taken = be.closure(mode, arg(a_s), arg(p_s), arg(b_s), thr)
+            trace.append(("closure", mode, a_s, p_s, b_s, taken))
+            vals.append(r)
         elif kind == "loop":
             n = be.count(vals[st[1]])
             trace.append(("loop", st[1], n))
@@ -193,6 +204,25 @@ class AGBackend:
     def gt(self, v, thr):
         return bool(v > thr)
 
+    def closure(self, mode, a, p, b, thr):
+        import warnings
+
+        import autograd
+
+        taken = []
+
+        def inner(y):
+            if y > thr:
+                taken.append(True)
+                return a * y * y + b * y
+            taken.append(False)
+            return a * b + 0.0
+
+        with warnings.catch_warnings():
+            warnings.simplefilter("ignore")
+            r = autograd.grad(inner)(p) if mode == "r" else autograd.make_jvp(inner)(p)(1.0)[1]
+        return r, taken[0]
+
     def count(self, v):
         return int(self.np.floor(abs(v) * 2.0)) % 3 + 1
 
@@ -218,6 +248,12 @@ class RefBackend:
 
     def gt(self, v, thr):
         return T.val(v) > thr
+
+    def closure(self, mode, a, p, b, thr):
+        av, pv = T.val(a), T.val(p)
+        if pv > thr:  # d/dy [a y^2 + b y] at y = p  =  2 a p + b
+            return self.tape.apply(("closure", None), 2.0 * av * pv + T.val(b), [(a, 2.0 * pv), (p, 2.0 * av), (b, 1.0)]), True
+        return 0.0, False  # d/dy [a b] = 0 exactly, a constant for every enclosing level
 
     def count(self, v):
         return int(math.floor(abs(T.val(v)) * 2.0)) % 3 + 1
@@ -271,7 +307,7 @@ def body(max_ops, c):
     multi = any(len({p for p, _ in ps if p is not None}) < len([p for p, _ in ps if p is not None]) for _, ps, _ in rb.tape.entries)
     fan = any(n >= 2 and live[i] for i, n in uses.items())
     dead = any(dep[i] and not live[i] for i in range(len(live)))
-    ctrl = any(t[0] in ("if", "loop", "rec") for t in rtrace)
+    ctrl = any(t[0] in ("if", "loop", "rec", "closure") for t in rtrace)
     labels = [l for l, on in (("multi_edge", multi), ("fan_out", fan), ("dead_op", dead), ("control_flow", ctrl)) if on]
     labels.append("form=" + prog["form"])
     nontrivial = bool(multi or fan or dead or ctrl)
